@@ -601,13 +601,30 @@ impl Em<'_> {
                 self.out.push(Ins::Block(BT::Empty));
                 self.labels.push(Lbl { is_loop: false, arity: 0, func_results: false });
                 let b_entry = self.mark_opt();
+                // one loop in four takes a parameter (block type = type index): the operand is on the stack
+                // at every entry, also when the back edge re-enters the loop
+                let with_param = self.rich && self.rng.chance(1, 4);
+                if with_param {
+                    self.expr32(1);
+                }
                 let l_open = self.out.len() as u32;
-                self.out.push(Ins::Loop(BT::Empty));
-                self.labels.push(Lbl { is_loop: true, arity: 0, func_results: false });
+                if with_param {
+                    let t = self.types.intern(&[VT::I32], &[]);
+                    self.out.push(Ins::Loop(BT::Func(t)));
+                } else {
+                    self.out.push(Ins::Loop(BT::Empty));
+                }
+                self.labels.push(Lbl { is_loop: true, arity: if with_param { 1 } else { 0 }, func_results: false });
                 let l_entry = self.mark_opt();
+                if with_param {
+                    self.out.push(Ins::Drop);
+                }
                 self.body(nest + 2);
                 // back edge
                 let m_br = self.mark();
+                if with_param {
+                    self.out.push(Ins::I32Const(7));
+                }
                 self.out.push(Ins::LocalGet(c));
                 self.out.push(Ins::I32Const(1));
                 self.out.push(Ins::S(Simple::I32Sub));
@@ -615,6 +632,9 @@ impl Em<'_> {
                 let bidx = self.out.len() as u32;
                 self.out.push(Ins::BrIf(0));
                 let m_post = self.mark();
+                if with_param {
+                    self.out.push(Ins::Drop);
+                }
                 self.info.branches.push(BranchInfo {
                     idx: bidx,
                     m_br,
@@ -924,7 +944,10 @@ pub fn gen_program(rng: &mut Rng, rich: bool) -> (ModuleSpec, ProgInfo) {
         let free_i32: Vec<u32> = (0..locals.len() as u32).filter(|i| locals[*i as usize] == VT::I32).collect();
         let free_i64: Vec<u32> = (0..locals.len() as u32).filter(|i| locals[*i as usize] == VT::I64).collect();
         let magic = FUNC_MAGIC_BASE + 1 + k as i64;
-        let magic_first = rng.chance(1, 2);
+        // one function in twelve leaves through its very first instruction (function-level entry and exit
+        // instrumentation then meet at instruction 0); its fingerprint constant follows as dead code
+        let exit_first = rich && rng.chance(1, 12);
+        let magic_first = !exit_first && rng.chance(1, 2);
         let mut em = Em {
             rng,
             out: if magic_first { vec![Ins::I64Const(magic), Ins::Drop] } else { vec![] },
@@ -950,7 +973,14 @@ pub fn gen_program(rng: &mut Rng, rich: bool) -> (ModuleSpec, ProgInfo) {
             rich,
             ref_funcs: (0..nf as u32).map(|j| N_HOST + j).collect(),
         };
-        em.budget = em.rng.range(3, 12) as i32;
+        em.budget = if exit_first { 0 } else { em.rng.range(3, 12) as i32 };
+        if exit_first {
+            if results.is_empty() && em.rng.chance(1, 2) {
+                em.out.push(Ins::Return);
+            } else {
+                em.out.push(Ins::Unreachable);
+            }
+        }
         while em.budget > 0 {
             em.stmt(0);
         }
